@@ -949,6 +949,9 @@ func (e *emitter) stringLit() string {
 		if e.ch.Bool(1, 12) {
 			sb.WriteString("\\" + q) // escaped own quote
 		}
+		if e.ch.Bool(1, 14) {
+			sb.WriteString("\\\n") // line continuation: the literal goes on on the next line
+		}
 	}
 	sb.WriteString(q)
 	return sb.String()
